@@ -31,6 +31,7 @@ vars == <<pc, chan, open, nd>>
 
 Closed == {"Released", "Failed", "Aborted", "PeerAborted", "ReleasedByPeer", "PeerClosed", "Dropped"}
 States == {"Est", "AwaitRP", "GotRQ", "Aborting", "SentRP"} \cup Closed
+(* "ReleasedOpen" / "ReleasedLate" occur only with the scripted misuse below *)
 
 TypeOK == /\ pc \in [Peers -> States]
           /\ open \in [Peers -> BOOLEAN]
@@ -96,6 +97,18 @@ AppRecvAbort(p) == /\ pc[p] = "Est" /\ Next1(p, "Abort")
                    /\ CloseSock(p) /\ Goto(p, "PeerAborted") /\ UNCHANGED nd
 AppEof(p)       == /\ pc[p] = "Est" /\ open[p] /\ chan[p] = <<>> /\ ~open[Other(p)]
                    /\ CloseSock(p) /\ Goto(p, "PeerClosed") /\ UNCHANGED nd
+
+(* Misuse by a scripted (non-library) requestor, NOT part of Next: it reads  *)
+(* the A-RELEASE-RP but keeps its socket open (the library's release()      *)
+(* closes it), then writes P-DATA on the released association and closes     *)
+(* late.  Used by the trace validator only, for runs that are flagged as     *)
+(* scripted, to show what a correct ACCEPTOR does with such a peer: it has   *)
+(* no action that writes P-DATA after its own A-RELEASE-RP.                  *)
+RawRecvRPKeepOpen(p) == /\ pc[p] = "AwaitRP" /\ Next1(p, "ReleaseRP")
+                        /\ Pop(p) /\ Goto(p, "ReleasedOpen") /\ UNCHANGED <<open, nd>>
+DataAfterReleaseMisuse(p) == /\ pc[p] = "ReleasedOpen" /\ open[p]
+                             /\ Push(p, "PData") /\ UNCHANGED <<pc, open, nd>>
+MisuseClose(p) == /\ pc[p] = "ReleasedOpen" /\ CloseSock(p) /\ Goto(p, "ReleasedLate") /\ UNCHANGED nd
 
 Act(p) == \/ SendData(p) \/ ReleaseCall(p) \/ ReleaseSendFail(p)
           \/ ReleaseRecvRP(p) \/ ReleaseRecvAbort(p) \/ PDataWhileAwaitRPIsError(p)
